@@ -48,6 +48,8 @@ fn parse_act(s: &Value) -> Option<Act> {
             s.get("graceful").and_then(|g| g.as_bool()).unwrap_or(true),
         ),
         "DropStopHandle" => Act::DropStopHandle(geti(s, "i") as usize),
+        "PushReady" => Act::PushReady(geti(s, "i") as usize, geti(s, "t") as usize, geti(s, "a") as u8),
+        "PushCreate" => Act::PushCreate(geti(s, "i") as usize, geti(s, "t") as usize, geti(s, "a") as u8),
         "SetReady" => Act::SetReady(
             geti(s, "i") as usize,
             geti(s, "t") as usize,
@@ -90,6 +92,12 @@ struct Run {
     pending_faults: Vec<usize>,
     injected: Vec<usize>, // outstanding injected errors per listener
     killed: Vec<bool>,
+    /// per worker: a stop message was sent and no poll has received it yet: "none" | "forced" | "graceful"
+    stop_sent: Vec<String>,
+    /// per worker: virtual time at which a poll moved it into its graceful shutdown state (-1: not)
+    shutdown_since: Vec<i64>,
+    shutdown_ms: u64,
+    #[allow(dead_code)]
     limit: usize,
     nlisteners: usize,
 }
@@ -99,6 +107,19 @@ fn one_based(v: &[usize]) -> Vec<usize> {
 }
 
 impl Run {
+    /// service-side events of the step, in the vocabulary of Worker.tla (tokens and connections 1-based)
+    fn events(&self, s: &Snap) -> Vec<Value> {
+        let mut out = vec![];
+        for (kind, _w, token, val) in s.svc_new.iter() {
+            match kind.as_str() {
+                "ready" => out.push(json!({"t": "ready", "k": token + 1, "a": val})),
+                "call" => out.push(json!({"t": "call", "k": token + 1, "c": val + 1})),
+                _ => out.push(json!({"t": if *val == 1 { "create" } else { "createfail" }, "k": token + 1})),
+            }
+        }
+        out
+    }
+
     /// projects a snapshot onto the specification's variables (connection ids 1-based)
     fn project(&mut self, s: &Snap) -> Value {
         let w = self.w;
@@ -173,7 +194,8 @@ impl Run {
             "skipped": s.skipped,
             "accepted": one_based(&s.accepted),
             "finished": one_based(&s.finished),
-            "wstate": s.wstate, "now": s.now_ms,
+            "wstate": s.wstate, "sstatus": s.sstatus, "now": s.now_ms,
+            "pe": self.events(s), "scriptsEmpty": s.scripts_empty,
             "stopReply": s.stop_reply, "stopReplyAt": s.stop_reply_at,
         })
     }
@@ -221,6 +243,9 @@ fn run_schedule(run_id: usize, sch: &Value, dir: &str, trace: &mut Trace) -> Val
         pending_faults: vec![],
         injected: vec![0; listeners.len()],
         killed: vec![false; w],
+        stop_sent: vec!["none".to_string(); w],
+        shutdown_since: vec![-1; w],
+        shutdown_ms: cfg.get("shutdown_ms").and_then(|m| m.as_u64()).unwrap_or(2000),
         limit,
         nlisteners: listeners.len(),
     };
@@ -298,8 +323,39 @@ fn run_schedule(run_id: usize, sch: &Value, dir: &str, trace: &mut Trace) -> Val
         let s = run.sim.snapshot();
         absorb(&mut run, &s);
         let ndisp = s.dispatched.len() - disp_before.min(s.dispatched.len());
+        // worker-side bookkeeping for the Worker.tla predicates
+        let prev_stop = run.stop_sent.clone();
+        let prev_total: Vec<i64> = (0..w).map(|i| prev.chan[i].max(0) + prev.inprog[i].len() as i64).collect();
+        let mut reply_now = vec!["none".to_string(); w];
+        for i in 0..w {
+            if prev.stop_reply[i] == -1 && s.stop_reply[i] != -1 {
+                reply_now[i] = match s.stop_reply[i] { 1 => "true", 0 => "false", _ => "dropped" }.to_string();
+            }
+            let polled = d == "PollWoken" || (d == "WorkerPoll" && geti(st, "i") as usize == i);
+            if polled && prev_stop[i] != "none" {
+                run.stop_sent[i] = "none".to_string();
+            }
+            if s.wstate[i] == "Shutdown" && prev.wstate[i] != "Shutdown" {
+                run.shutdown_since[i] = s.now_ms as i64;
+            }
+        }
+        if d == "StopWorker" {
+            let i = geti(st, "i") as usize;
+            let g = st.get("graceful").and_then(|g| g.as_bool()).unwrap_or(true);
+            if s.alive[i] {
+                run.stop_sent[i] = if g { "graceful" } else { "forced" }.to_string();
+            }
+        }
+        let polled_workers: Vec<usize> = match d {
+            "WorkerPoll" => vec![geti(st, "i") as usize],
+            "PollWoken" => (0..w).collect(),
+            _ => vec![],
+        };
         let mut rec = json!({"ev": "step", "run": run_id, "k": k, "do": d, "q": q,
-            "pe": pe && d == "Iter", "ndisp": ndisp, "st": run.project(&s)});
+            "pe": pe && d == "Iter", "ndisp": ndisp, "st": run.project(&s),
+            "polled": polled_workers, "prevStop": prev_stop, "prevTotal": prev_total, "replyNow": reply_now,
+            "prevWstate": prev.wstate, "prevSstatus": prev.sstatus,
+            "shutdownSince": run.shutdown_since, "shutdownMs": run.shutdown_ms});
         if d != "Iter" && d != "Settle" {
             rec["arg"] = st.clone();
         }
